@@ -639,6 +639,9 @@ func (s *Server) Clients(http2 bool, opts ...connect.ClientOption) *ClientSet {
 
 // CLog is what the client side observed of one call.
 type CLog struct {
+	// TrailerPost: the response trailers as seen after three more Receive
+	// calls past the end of a bidi stream (nil for the other kinds).
+	TrailerPost http.Header
 	Kind      Kind
 	Msgs      []*Msg // clones at receipt
 	HolderSum uint64 // read from the reused holder without cloning
@@ -756,6 +759,7 @@ func (cs *ClientSet) Do(ctx context.Context, kind Kind, id string, hdr http.Head
 				l.Msgs = append(l.Msgs, proto.Clone(m).(*Msg))
 			}
 		}
+		l.TrailerPost = st.ResponseTrailer().Clone()
 		l.CloseErr = st.CloseResponse()
 	}
 	return l
